@@ -7,7 +7,7 @@ import Mathlib.Algebra.BigOperators.Group.Finset.Sigma
 namespace CryoCat.C14
 open Finset
 
-variable {K : Type} [Field K] {α : Type}
+variable {K : Type} [_root_.Field K] {α : Type}
 
 theorem foldl_add_eq_sum (h : Nat → K) (n : Nat) :
     (List.range n).foldl (fun acc k => acc + h k) 0 = ∑ k ∈ range n, h k := by
